@@ -107,6 +107,13 @@ Definition int_any_to_xml (v : pyval) : res pyval :=
   | _ => Err TypeErr
   end.
 
+Definition int_any_to_xml_b (v : pyval) : res pyval :=
+  match v with
+  | PInt z => Ok (PStr (str_of_Z z))
+  | PBool b => Ok (PStr (str_of_Z (if b then 1 else 0)))
+  | _ => Err TypeErr
+  end.
+
 Definition str_any_to_xml (v : pyval) : res pyval :=
   match v with PStr s => Ok (PStr s) | _ => Err TypeErr end.
 
@@ -129,23 +136,37 @@ Definition enum_tokens_to_xml (toks : list str) (v : pyval) : res pyval :=
   | _ => Err TypeErr
   end.
 
+(** a string of exactly n characters drawn from [allowed], written upper-cased
+    (ST_HexColorRGB) *)
+Definition charset_upper_to_xml (n : Z) (allowed : str) (v : pyval) : res pyval :=
+  match v with
+  | PStr s => if (match Z.compare (Z.of_nat (length s)) n with Eq => true | _ => false end)
+              then (if forallb (fun c => memN c allowed) s then Ok (PStr (map ascii_upper s)) else Err ValueErr)
+              else Err ValueErr
+  | _ => Err TypeErr
+  end.
+
 Inductive desc :=
+| DCharsetUpper (n : Z) (allowed : str)
 | DBool
 | DEnumTokens (toks : list str)
 | DIntRange (lo hi : Z)
 | DIntRangeB (lo hi : Z)
 | DIntAny
+| DIntAnyB
 | DStrAny
 | DStrEnum (members : list str)
 | DCustom.                         (* no canonical form claimed: judged by correspondence + oracle *)
 
 Definition desc_to_xml (d : desc) (v : pyval) : res pyval :=
   match d with
+  | DCharsetUpper n allowed => charset_upper_to_xml n allowed v
   | DBool => bool_to_xml v
   | DEnumTokens toks => enum_tokens_to_xml toks v
   | DIntRange lo hi => int_range_to_xml lo hi v
   | DIntRangeB lo hi => int_range_to_xml_b lo hi v
   | DIntAny => int_any_to_xml v
+  | DIntAnyB => int_any_to_xml_b v
   | DStrAny => str_any_to_xml v
   | DStrEnum ms => str_enum_to_xml ms v
   | DCustom => Err OtherErr
@@ -171,11 +192,17 @@ Fixpoint covers_str (t : lexspec) (ms : list str) : bool :=
 
 Definition write_ok (d : desc) (t : lexspec) : bool :=
   match d with
+  | DCharsetUpper n allowed =>
+      match t with
+      | LHexBin k => Z.eqb n (Z.of_nat (2 * k)) && forallb is_hex (map ascii_upper allowed)
+      | _ => false
+      end
   | DBool => match t with LBool => true | _ => false end
   | DEnumTokens toks => covers_str t toks
   | DIntRange lo hi => (lo <=? hi)%Z && covers_int t lo hi && no_bool lo hi
   | DIntRangeB lo hi => (lo <=? hi)%Z && covers_int t lo hi
   | DIntAny => false
+  | DIntAnyB => false
   | DStrAny => match t with LString => true | _ => false end
   | DStrEnum ms => covers_str t ms
   | DCustom => false
@@ -217,6 +244,40 @@ Fixpoint read_ok (r : rdesc) (t : lexspec) : bool :=
   | _, _ => false
   end.
 
+(** a lexical space the translator could not express completely *)
+Fixpoint has_unknown (t : lexspec) : bool :=
+  match t with
+  | LUnknown => true
+  | LUnion l => (fix any (l : list lexspec) := match l with [] => false | t :: l' => has_unknown t || any l' end) l
+  | _ => false
+  end.
+
 (** One attribute declaration of a registered element class with the lexical space of
     the attribute's type in one XSD type the element's tag can have. *)
-Record attr_row := { ar_id : N; ar_desc : desc; ar_rdesc : rdesc; ar_lex : lexspec }.
+Record attr_row := { ar_id : N; ar_desc : desc; ar_rdesc : rdesc; ar_lex : lexspec;
+                     ar_to_xml : pyval -> res pyval; ar_from_xml : pyval -> res pyval }.
+Definition is_custom_w (d : desc) : bool := match d with DCustom => true | _ => false end.
+Definition is_custom_r (r : rdesc) : bool := match r with RCustom => true | _ => false end.
+
+(** verdicts: 0 = obligation holds, 1 = fails, 2 = not judged (custom class or a
+    lexical space with an unmodelled pattern that would be needed to decide) *)
+Definition w_verdict (r : attr_row) : N :=
+  if is_custom_w (ar_desc r) then 2%N
+  else if write_ok (ar_desc r) (ar_lex r) then 0%N
+  else if has_unknown (ar_lex r) then 2%N else 1%N.
+Definition r_verdict (r : attr_row) : N :=
+  if is_custom_r (ar_rdesc r) then 2%N
+  else if has_unknown (ar_lex r) then 2%N
+  else if read_ok (ar_rdesc r) (ar_lex r) then 0%N else 1%N.
+
+(** RT applicability (mirrors proofs/SimpleTypeLib_proofs.rt_ok; kept here for diagnostics) *)
+Definition big30 : Z := 1000000000000000000000000000000%Z.
+Definition rt_ok_b (r : attr_row) : bool :=
+  match ar_desc r, ar_rdesc r with
+  | DIntRange lo hi, RInt => (- big30 <? lo)%Z && (hi <? big30)%Z && no_bool lo hi
+  | DIntRangeB lo hi, RInt => (- big30 <? lo)%Z && (hi <? big30)%Z
+  | (DStrAny | DStrEnum _), RStr => true
+  | DBool, RBool => true
+  | DEnumTokens a, REnumTokens b => forallb (fun x => mem_str x b) a
+  | _, _ => false
+  end.
